@@ -133,6 +133,97 @@ def gen_frame(rng, dict_=b"", small=True, bsid=None, indep=None, bcrc=None, ccrc
             "hlen": len(header(bsid, indep, bcrc, csize, ccrc, dictid))}
     return fr, bytes(content), meta
 
+def far_match_block(rng, hist, nseq=None, off_lo=40000, off_hi=65535, maxc=60000):
+    """A compressed block (built from sequences, strictly valid) whose matches all reach far back into the
+    history: offsets in [off_lo, off_hi].  Returns (block, content)."""
+    out = bytearray(hist)
+    h = len(hist)
+    blk = bytearray()
+    nseq = nseq or rng.choice([3, 8, 20, 40])
+    for k in range(nseq):
+        lits = rng.randbytes(rng.choice([0, 1, 3, 16, 40]))
+        avail = len(out) + len(lits)
+        hi = min(off_hi, avail)
+        lo = min(off_lo, hi)
+        if hi < 1:
+            break
+        off = rng.randrange(lo, hi + 1)
+        ml = rng.choice([4, 19, 200, 1000, 3000, 20000])
+        if off >= 4:
+            ml = max(4, min(ml, off))                     # no overlap: plain slice copy
+        room = maxc - 64 - (len(out) - h) - len(lits)
+        if room < 4:
+            break
+        ml = max(4, min(ml, room))
+        out += lits
+        start = len(out) - off
+        if ml <= off:
+            out += out[start:start + ml]
+        else:
+            for i in range(ml):
+                out.append(out[start + i])
+        blk += declib.enc_seq(lits, off, ml)
+    # end-of-block conditions: last 5 bytes literals, last match starts >= 12 bytes before the end
+    last = rng.randbytes(rng.choice([12, 13, 20, 30]))
+    out += last
+    blk += declib.enc_last(last)
+    return bytes(blk), bytes(out[h:])
+
+def gen_recycle_frame(rng, bsid=4, ccrc=None, bcrc=None, dict_=b"", delta=None, small_blocks=False, ncomp=None):
+    """Directed family: LINKED blocks; a short uncompressed block, then uncompressed blocks until the output
+    exceeds maxBlockSize + 128 KB (the capacity of the decoder's history buffer, so that a decoder working
+    with small destination buffers has to recycle it) by [delta] < 40000 bytes, then one or two compressed
+    blocks whose matches (offsets 40000..65535) reach across the recycling point.  Returns (frame, content, meta)."""
+    maxb = BSIZE[bsid]
+    ccrc = rng.random() < 0.5 if ccrc is None else ccrc
+    bcrc = rng.random() < 0.3 if bcrc is None else bcrc
+    delta = delta if delta is not None else rng.choice([1, 500, 3000, 10000, 10000, 20000, 35000, rng.randrange(1, 39000)])
+    target = maxb + 131072 + delta                      # output before the first compressed block
+    content = bytearray()
+    body = bytearray()
+    sizes = []
+    first = rng.choice([1, 100, 3000, 10000, 10000, 20000])
+    sizes.append(first)
+    while sum(sizes) < target:
+        rem = target - sum(sizes)
+        n = rng.choice([300, 1000, 2500, 4096]) if small_blocks else maxb
+        sizes.append(min(n, rem))
+    for n in sizes:
+        data = rng.randbytes(n)
+        body += block(data, True, bcrc); content += data
+    ncomp = ncomp or rng.choice([1, 1, 2])
+    for j in range(ncomp):
+        hist = (bytes(dict_) + bytes(content))[-65536:]
+        blk, c = far_match_block(rng, hist, maxc=min(maxb, 60000))
+        body += block(blk, False, bcrc); content += c
+    csize = rng.choice([None, len(content)])
+    fr = header(bsid, False, bcrc, csize, ccrc, None) + bytes(body) + struct.pack("<I", 0)
+    if ccrc:
+        fr += struct.pack("<I", xxh32(bytes(content)))
+    meta = {"bsid": bsid, "indep": False, "bcrc": bcrc, "ccrc": ccrc, "csize": csize, "raw_sizes": sizes[:3] + ["..."] + [len(sizes)],
+            "delta": delta, "hlen": len(header(bsid, False, bcrc, csize, ccrc, None)), "ncomp": ncomp}
+    return fr, bytes(content), meta
+
+def stored_max_block(rng, maxb):
+    """A strictly valid compressed block whose STORED size is exactly maxb (lz4's own compressors never emit one:
+    a block that does not shrink is stored raw).  All literals; if no literal count gives the exact size (the
+    length encoding skips a value every 255) a leading 4-byte sequence shifts it.  Returns (block, content)."""
+    for pre_lits in (None, 1, 2):
+        pre = b"" if pre_lits is None else declib.enc_seq(b"x" * pre_lits, 1, 4)
+        prec = b"" if pre_lits is None else b"x" * (pre_lits + 4)
+        n = maxb - len(pre)
+        while n > 0:
+            tot = len(pre) + 1 + (((n - 15) // 255 + 1) if n >= 15 else 0) + n
+            if tot == maxb:
+                lits = rng.randbytes(n)
+                blk = pre + declib.enc_last(lits)
+                assert len(blk) == maxb
+                return blk, prec + lits
+            if tot < maxb:
+                break
+            n -= 1
+    raise RuntimeError("no block of stored size %d" % maxb)
+
 def mutate_frame(rng, fr):
     b = bytearray(fr)
     k = rng.randrange(7)
@@ -173,6 +264,11 @@ class FLib(Lib):
         if self.peek:
             for n in ("verif_cctx_alloc", "verif_cctx_type", "verif_cctx_stage", "verif_dctx_stage", "verif_dctx_skip"):
                 f = getattr(L, n); f.restype = ctypes.c_int; f.argtypes = [P]
+            if hasattr(L, "verif_create_dctx"):
+                L.verif_create_dctx.restype = P; L.verif_create_dctx.argtypes = []
+                L.verif_alloc_count.restype = ctypes.c_int; L.verif_alloc_count.argtypes = []
+                L.verif_alloc_get.restype = ctypes.c_ulonglong; L.verif_alloc_get.argtypes = [ctypes.c_int]
+                L.verif_alloc_reset.restype = None; L.verif_alloc_reset.argtypes = []
             for n in ("verif_dctx_remaining", "verif_dctx_tmpInSize", "verif_dctx_tmpInTarget", "verif_dctx_maxBlockSize", "verif_dctx_maxBufferSize"):
                 f = getattr(L, n); f.restype = ctypes.c_ulonglong; f.argtypes = [P]
     def dstate(self, ctx):
@@ -196,11 +292,19 @@ class CDctx:
     (mode 'contig': prefix-mode history; the bytes beyond the window's capacity are checked to be untouched)."""
     def __init__(self, lib, version=100):
         self.lib = lib
-        p = c_void_p()
-        r = lib.F_createDecompressionContext(byref(p), version)
-        if r != 0:
-            raise RuntimeError("createDecompressionContext failed")
+        self.logged = getattr(lib, "peek", False) and hasattr(lib.L, "verif_create_dctx")
+        if self.logged:
+            # internal buffers through a recording allocator (plain malloc underneath: ASan still sees them)
+            p = c_void_p(lib.L.verif_create_dctx())
+            if not p.value:
+                raise RuntimeError("createDecompressionContext_advanced failed")
+        else:
+            p = c_void_p()
+            r = lib.F_createDecompressionContext(byref(p), version)
+            if r != 0:
+                raise RuntimeError("createDecompressionContext failed")
         self.ctx = p
+        self.allocs = []        # sizes requested by the last LZ4F_decompress call
         self.keep = []          # buffers that must stay alive (stableDst, dictionaries)
         self.contig = None
         self.cpos = 0
@@ -226,6 +330,7 @@ class CDctx:
         else:
             db = Buf(cap, data=fillpat(cap, salt)); dp = db.p; dsz = c_size_t(cap)
         opts = DOpts(1 if stable else 0, 1 if skip else 0, 0, 0)
+        if self.logged: lib.L.verif_alloc_reset()
         if dict_ is not None:
             if isinstance(dict_, Buf):
                 dbuf = dict_
@@ -235,6 +340,8 @@ class CDctx:
         else:
             r = lib.F_decompress(self.ctx, dp, byref(dsz), sb.p, byref(ssz), byref(opts))
         consumed = ssz.value; produced = dsz.value
+        if self.logged:
+            self.allocs = [lib.L.verif_alloc_get(i) for i in range(lib.L.verif_alloc_count())]
         if dstnull:
             img = b""
         elif self.contig is not None:
@@ -291,7 +398,8 @@ class MDctx:
         if len(a) < 8:
             raise RuntimeError("oracle: " + " ".join(a))
         st = [x for x in a if x.startswith("st=")]
-        return {"consumed": int(a[0]), "produced": int(a[1]), "ret": int(a[2]), "fuel": a[3], "oob": a[4], "stage": a[5],
+        capm = [x for x in a if x.startswith("cap=")]
+        return {"tmpInCap": int(capm[0][4:]) if capm else None, "consumed": int(a[0]), "produced": int(a[1]), "ret": int(a[2]), "fuel": a[3], "oob": a[4], "stage": a[5],
                 "outlen": int(a[6]), "outmd5": a[7], "state": st[0][3:] if st else None}
     def reset(self):
         self.orc.ask("reset", self.id)
@@ -339,6 +447,9 @@ CHUNKINGS = ["whole", "one", "hdr", "rand", "hint"]
 
 def chunk_plan(rng, policy, total, hlen=7):
     """returns a function giving the size of the next piece"""
+    if isinstance(policy, (list, tuple)):                 # explicit absolute cut positions
+        cuts = sorted(set(int(c) for c in policy if 0 < c < total)) + [total]
+        return lambda pos, hint: next(c for c in cuts if c > pos) - pos
     if policy == "whole":
         return lambda pos, hint: total - pos
     if policy == "one":
@@ -349,6 +460,8 @@ def chunk_plan(rng, policy, total, hlen=7):
         return lambda pos, hint: (cut - pos) if pos < cut else (total - pos)
     if policy == "hint":
         return lambda pos, hint: max(1, hint)
+    if policy == "kb":
+        return lambda pos, hint: rng.choice([1500, 4096, 10000, 30000])
     sizes = [1, 1, 2, 3, 4, 5, 7, 8, 15, 16, 19, 64, 300, 5000, 70000]
     return lambda pos, hint: rng.choice(sizes)
 
@@ -357,6 +470,11 @@ def cap_plan(rng, policy, bs):
         return lambda: rng.choice([0, 1, 2, 7, 100, bs - 1, bs, bs + 1])
     if policy == "small":
         return lambda: rng.choice([0, 1, 2, 7, 100, 1000])
+    if isinstance(policy, str) and policy.startswith("fix"):          # "fix4096": the same small capacity every call
+        v0 = int(policy[3:])
+        return lambda: v0
+    if policy == "kb":                                                 # a few KB, varying
+        return lambda: rng.choice([1000, 3000, 4096, 10000, 20000])
     if policy == "mid":
         return lambda: rng.choice([1000, 4096, 20000, bs // 2, bs - 1, bs, rng.randrange(1000, bs)])
     v = {"1": 1, "7": 7, "bs-1": bs - 1, "bs": bs, "large": bs + 70000}[policy] if isinstance(policy, str) else int(policy)
@@ -364,16 +482,16 @@ def cap_plan(rng, policy, bs):
 
 class Session:
     """One byte string fed to a C context and to the model context in lock step."""
-    def __init__(self, st, cd=None, md=None):
+    def __init__(self, st, cd=None, md=None, no_model=False):
         self.st = st
         self.lib = st["lib"]; self.orc = st["oracle"]
         self.cd = cd or CDctx(self.lib)
-        self.md = md or MDctx(self.orc)
+        self.md = md or (None if no_model else MDctx(self.orc))
         self.trace = []
         self.calls = 0
         self.stages = {}
         self.corr = None          # first model/code disagreement; afterwards the session goes on with the real code only
-        self.model_dead = False
+        self.model_dead = no_model   # no_model: real code only (ASan + direct oracles), for very long call sequences
     def call(self, src, cap, dstnull=False, skip=False, stable=False, dict_=None, dictbuf=None, salt=0):
         """one LZ4F_decompress call on both sides.  Returns (kind, info):
         kind 'ok' -> info = (consumed, produced bytes, ret); 'corr' / 'prop' -> info = description"""
@@ -405,6 +523,12 @@ class Session:
         elif self.lib.peek and c_ret >= 0 and m["state"] is not None:
             cs = self.lib.dstate(self.cd.ctx)
             self.stages[m["stage"]] = self.stages.get(m["stage"], 0) + 1
+            al = self.cd.allocs
+            if len(al) >= 2 and m.get("tmpInCap") is not None:
+                want = (m["tmpInCap"], int(m["state"].split(",")[5]))
+                if (al[-2], al[-1]) != want:
+                    problems.append("call %d: internal buffers allocated as tmpIn=%d, tmpOutBuffer=%d bytes; the model (and theorem C08_staging_in_bounds) has tmpIn=%d, tmpOutBuffer=%d" % (
+                        self.calls, al[-2], al[-1], want[0], want[1]))
             if cs != m["state"]:
                 problems.append("call %d: context fields (stage,remaining,tmpInSize,tmpInTarget,maxBlockSize,maxBufferSize,skip) code %s model %s" % (self.calls, cs, m["state"]))
         if problems:
@@ -438,7 +562,8 @@ class Session:
                 return None
         return None
     def free(self):
-        self.cd.free(); self.md.free()
+        self.cd.free()
+        if self.md is not None: self.md.free()
 
 def drive(sess, rng, data, chunking="whole", capmode="large", skip=False, stable=False, dict_=None, bs=65536, hlen=7,
           multi=False, max_calls=8000, dstnull_prob=0.0):
@@ -487,3 +612,174 @@ def _drive(sess, rng, data, chunking, capmode, skip, stable, dict_, bs, hlen, mu
         else:
             stall = 0
     return {"verdict": "toolong", "what": "more than %d calls" % max_calls, "pos": pos, "frames": frames}
+
+
+# ------------------------------------------------------------------ skipChecksums must not outlive its frame
+def checksum_only_damage(rng):
+    """A frame whose ONLY damage is one that a checksum reveals (it parses, every block decodes).
+    Returns (damaged frame, description, content as it will be produced)."""
+    e = struct.pack("<I", 0)
+    k = rng.randrange(4)
+    pre = b""; prec = b""
+    if rng.random() < 0.4:
+        prec = rng.randbytes(rng.choice([1, 20, 300])); 
+    if k == 0:      # content checksum itself flipped
+        bcrc = rng.random() < 0.5
+        c = rng.randbytes(rng.choice([1, 40, 700]))
+        comp = rng.random() < 0.5
+        body = (block(prec, True, bcrc) if prec else b"") + block(declib.enc_last(c) if comp else c, not comp, bcrc)
+        content = prec + c
+        crc = xxh32(content) ^ (1 << rng.randrange(32))
+        return header(4, rng.random() < 0.5, bcrc, None, True, None) + body + e + struct.pack("<I", crc), "content checksum field flipped", content
+    if k == 1:      # payload byte of an uncompressed block flipped, block (and content) checksum of the original kept
+        ccrc = rng.random() < 0.5
+        orig = rng.randbytes(rng.choice([1, 33, 500, 5000]))
+        blk = bytearray(block(orig, True, True))
+        i = rng.randrange(len(orig)); blk[4 + i] ^= 1 << rng.randrange(8)
+        fr = header(4, rng.random() < 0.5, True, None, ccrc, None) + (block(prec, True, True) if prec else b"") + bytes(blk) + e
+        if ccrc:
+            fr += struct.pack("<I", xxh32(prec + orig))
+        return fr, "payload byte of an uncompressed block flipped (block checksum mismatch)", prec + bytes(blk[4:4 + len(orig)])
+    if k == 2:      # literal byte inside a compressed block flipped; only the content checksum can tell
+        c = bytearray(rng.randbytes(rng.choice([13, 40, 700])))
+        good = bytes(c)
+        i = rng.randrange(len(c)); c[i] ^= 1 << rng.randrange(8)
+        fr = header(4, rng.random() < 0.5, False, None, True, None) + (block(prec, True, False) if prec else b"") + block(declib.enc_last(bytes(c)), False, False) + e \
+             + struct.pack("<I", xxh32(prec + good))
+        return fr, "literal byte of a compressed block flipped (content checksum mismatch)", prec + bytes(c)
+    # block checksum field of an uncompressed block flipped
+    c = rng.randbytes(rng.choice([1, 64, 900]))
+    blk = bytearray(block(c, True, True)); blk[-1 - rng.randrange(4)] ^= 1 << rng.randrange(8)
+    ccrc = rng.random() < 0.5
+    fr = header(4, rng.random() < 0.5, True, None, ccrc, None) + (block(prec, True, True) if prec else b"") + bytes(blk) + e + (struct.pack("<I", xxh32(prec + c)) if ccrc else b"")
+    return fr, "block checksum field of an uncompressed block flipped", prec + c
+
+def run_skipleak(st, rng):
+    """skipChecksums used on frame k (decoded completely, or abandoned half-way + reset, or completed + reset) must not
+    disable verification of frame k+1 decoded WITHOUT the option on the same context.
+    Returns (evals, None) or (evals, (status, what, detail))."""
+    orc = st["oracle"]
+    mode = rng.choice(["complete", "half_reset", "complete_reset", "skippable_between"])
+    frA, contentA, metaA = gen_frame(rng, b"", nblocks=rng.choice([1, 2, 3]))
+    frB, how, produced = checksum_only_damage(rng)
+    sp = spec_frame(orc, frB, b"", skip=False)
+    sess = Session(st)
+    evals = 0
+    try:
+        det = {"mode": mode, "frameA": frA.hex()[:1200], "frameB_damaged": frB.hex()[:3000], "damage": how}
+        cutA = len(frA) if mode != "half_reset" else rng.randrange(metaA["hlen"] + 1, max(metaA["hlen"] + 2, len(frA)))
+        r = drive(sess, rng, frA[:cutA], rng.choice(["whole", "rand", "one"]), rng.choice(["large", "7", "rand"]), skip=True,
+                  bs=BSIZE[metaA["bsid"]], hlen=metaA["hlen"])
+        if r["verdict"] in ("prop", "noprogress"):
+            return sess.calls, ("prop_fail", str(r["what"]), det)
+        if mode != "half_reset" and (r["verdict"] != "complete" or r["out"] != contentA):
+            return sess.calls, ("prop_fail", "valid frame not decoded with skipChecksums=1: %s %s" % (r["verdict"], r.get("code")), det)
+        if mode in ("half_reset", "complete_reset"):
+            sess.cd.reset()
+            if not sess.model_dead: sess.md.reset()
+        if mode == "skippable_between":
+            r = drive(sess, rng, skippable(rng.randrange(16), rng.randbytes(5)), "whole", "large", skip=False)
+        ch = rng.choice(["whole", "rand", "one", "hdr"]); cap = rng.choice(["large", "7", "rand"])
+        pseed = rng.randrange(1 << 40)
+        c0 = sess.calls
+        r1 = drive(sess, random.Random(pseed), frB, ch, cap, skip=False)
+        t1 = list(sess.trace[c0:])
+        fresh = Session(st)
+        r2 = drive(fresh, random.Random(pseed), frB, ch, cap, skip=False)
+        t2 = list(fresh.trace)
+        evals = sess.calls + fresh.calls
+        fresh.free()
+        det.update({"chunking": ch, "cap": cap, "pseed": pseed, "reused": (r1["verdict"], r1.get("code")), "fresh": (r2["verdict"], r2.get("code"))})
+        for r in (r1, r2):
+            if r["verdict"] in ("prop", "noprogress"):
+                return evals, ("prop_fail", str(r["what"]), det)
+        if r1["verdict"] == "complete" and sp is None:
+            return evals, ("prop_fail", "a frame whose %s is reported COMPLETE (skipChecksums NOT requested) on a context that had used skipChecksums=1 "
+                           "on an earlier frame (%s); a fresh context says %s %s; the specification rejects the frame" % (
+                               how, mode, r2["verdict"], ERR.get(r2.get("code"), r2.get("code"))), det)
+        if t1 != t2 or r1["verdict"] != r2["verdict"] or r1.get("code") != r2.get("code"):
+            return evals, ("prop_fail", "after skipChecksums=1 on an earlier frame (%s) the context decodes a damaged frame differently from a fresh context: %s %s vs %s %s" % (
+                mode, r1["verdict"], r1.get("code"), r2["verdict"], r2.get("code")), det)
+        if r1.get("corr") or r2.get("corr"):
+            return evals, ("corr_fail", "model/code disagree: " + str(r1.get("corr") or r2.get("corr")), det)
+        return evals, None
+    finally:
+        sess.free()
+
+
+# ------------------------------------------------------------------ getFrameInfo first, then LZ4F_decompress_usingDict
+def run_info_then_dict(st, rng):
+    """The normal way to learn a frame's dictID: LZ4F_getFrameInfo on the header, then LZ4F_decompress_usingDict
+    for the rest (the context is in dstage_init when the dictionary is handed over).  Fresh or reused context,
+    linked / independent blocks, dictionaries of several sizes; the first block references the dictionary.
+    Direct oracle: output == Spec.frame_decode with that dictionary.  Returns (evals, None | (status, what, detail))."""
+    orc = st["oracle"]
+    dsz = rng.choice([1, 7, 64, 1000, 5000, 65536, 70000, 100000])
+    dict_ = declib.gens.data(rng, rng.choice(["random", "text", "random"]), dsz)
+    indep = rng.random() < 0.5
+    bcrc = rng.random() < 0.4; ccrc = rng.random() < 0.5
+    dictid = rng.choice([None, rng.randrange(1, 1 << 32)])
+    content = bytearray(); body = bytearray()
+    nb = rng.choice([1, 2, 3])
+    for j in range(nb):
+        hist = bytes(dict_) if indep else (bytes(dict_) + bytes(content))[-65536:]
+        if j == 0 or indep:
+            # every match of this block starts in the dictionary
+            blk, c = far_match_block(rng, hist[-65535:], nseq=rng.choice([1, 3, 8]), off_lo=max(1, min(len(hist), 65535) // 2 + 1),
+                                     off_hi=65535, maxc=rng.choice([200, 3000, 30000]))
+        else:
+            blk, c, _ = declib.gen_valid_block(rng, hist, max_seqs=rng.choice([1, 4, 8]))
+        if not blk:
+            continue
+        body += block(blk, False, bcrc); content += c
+    csize = rng.choice([None, len(content)]) if len(content) else None
+    hdr = header(4, indep, bcrc, csize, ccrc, dictid)
+    fr = hdr + bytes(body) + struct.pack("<I", 0) + (struct.pack("<I", xxh32(bytes(content))) if ccrc else b"")
+    content = bytes(content)
+    det = {"frame": fr.hex() if len(fr) < 4000 else "len=%d" % len(fr), "dict_len": dsz, "indep": indep, "dictid": dictid}
+    sp = spec_frame(orc, fr, dict_, skip=False)
+    if sp is None or sp[0] != len(content) or sp[1] != md5(content) or sp[2] != 0:
+        return 0, ("harness_error", "generated dictionary frame is not what the specification decodes", det)
+    sess = Session(st)
+    try:
+        reused = rng.random() < 0.5
+        det["reused"] = reused
+        if reused:      # some history first: a frame (with another dictionary or none), maybe abandoned + reset
+            d0 = rng.choice([None, rng.randbytes(300)])
+            fr0, c0, m0 = gen_frame(rng, d0 or b"", nblocks=rng.choice([1, 2]))
+            cut = len(fr0) if rng.random() < 0.6 else rng.randrange(1, len(fr0))
+            r0 = drive(sess, rng, fr0[:cut], rng.choice(["whole", "rand"]), rng.choice(["large", "7"]), dict_=d0, hlen=m0["hlen"])
+            if r0["verdict"] in ("prop", "noprogress"):
+                return sess.calls, ("prop_fail", str(r0["what"]), det)
+            if r0["verdict"] != "complete":
+                sess.cd.reset()
+                if not sess.model_dead: sess.md.reset()
+        give = rng.choice([len(hdr), len(hdr), len(hdr) + 3, len(fr)])
+        ci = sess.cd.frame_info(fr[:give])
+        if not sess.model_dead:
+            mi = sess.md.frame_info(fr[:give])
+            if ci != mi[:3]:
+                sess.corr = "getFrameInfo: code %s model %s" % (ci, mi[:3]); sess.model_dead = True
+        if ci[1] < 0 or ci[0] != len(hdr):
+            return sess.calls + 1, ("prop_fail", "getFrameInfo on a valid header: consumed %d (header %d bytes), ret %d" % (ci[0], len(hdr), ci[1]), det)
+        want_id = "dictid=%d" % (dictid or 0)
+        if want_id not in (ci[2] or ""):
+            return sess.calls + 1, ("prop_fail", "getFrameInfo reports [%s], the header has %s" % (ci[2], want_id), det)
+        ch = rng.choice(["whole", "rand", "one", "hint"]); cap = rng.choice(["large", "7", "rand", "bs"])
+        if len(content) > 3000 and cap == "7": cap = "kb"
+        if len(fr) > 3000 and ch == "one": ch = "rand"
+        det.update({"chunking": ch, "cap": cap})
+        r = drive(sess, rng, fr[ci[0]:], ch, cap, dict_=dict_, hlen=0)
+        det.update({"verdict": r["verdict"], "code": r.get("code")})
+        if r["verdict"] in ("prop", "noprogress"):
+            return sess.calls + 1, ("prop_fail", str(r["what"]), det)
+        if r["verdict"] != "complete" or r["out"] != content or r["pos"] != len(fr) - ci[0]:
+            return sess.calls + 1, ("prop_fail", "header read by LZ4F_getFrameInfo, rest by LZ4F_decompress_usingDict (dictionary of %d bytes, %s blocks, %s context): "
+                                    "%s %s, %d of %d content bytes; the specification decodes this frame with this dictionary" % (
+                                        dsz, "independent" if indep else "linked", "reused" if reused else "fresh", r["verdict"],
+                                        ERR.get(r.get("code"), r.get("code")), len(r.get("out", b"")), len(content)), det)
+        if sess.corr:
+            return sess.calls + 1, ("corr_fail", "model/code disagree: " + str(sess.corr), det)
+        return sess.calls + 1, None
+    finally:
+        sess.free()
